@@ -56,6 +56,8 @@ XLIST = {
         ("c07.exact_gates", {"GX": "D15"}, {"D15": "the dispatcher refuses a request for a missing feature only where the protocol ties it to that feature, so an accepted call is not dropped (C07 gate table, exactness)"}),
     ],
     "C03": [
+        ("c06.a1", {"A1": ("R17", has("wait_for_ack"))}, {"R17": "an acknowledgement that carries the handler's verdict is awaited whenever REPLY_ACK applies (C06/A1)"}),
+        ("c08.s9", {"S9": "R18"}, {"R18": "a reply of exactly the maximum message size can be built and sent (inclusive bound on every side) (C08/S9)"}),
         ("c02.d1d2", {"D2": "R15"}, {"R15": "the handler is asked about the ring / region / object the request names, so the value reported is that one's (C02/D2)"}),
         ("c08.s4", {"S4": "R16"}, {"R16": "a closed connection is an error for the caller in bounded time: EPIPE/ECONNRESET are not retried (C08/S4)"}),
         ("c10", {"L1": ("R12", has("Frontend as"))}, {"R12": "request and reply are exchanged under one acquisition of the connection lock, so a caller receives its own reply (C10/L1)"}),
@@ -91,6 +93,7 @@ XLIST = {
         ("c14", {"Q5": "G6"}, {"G6": "the backend-request proxy's feature flags are the negotiated ones, so its own gates (G3) test the negotiated state (C14/Q5)"}),
     ],
     "C08": [
+        ("c16", {"H3": ("S14", has("no-other-ok", "socket-broken"))}, {"S14": "a stream cut inside a message is reported as an error by the daemon, never as a clean end (C16/H3)"}),
         ("c04.p9", {"P9": "S13"}, {"S13": "the size a reply header announces is the size of what follows it, so a peer framing by the header stays in step (C04/P9)"}),
         ("c05.v5", {"V5": "S12"}, {"S12": "a receive never runs past the buffer of the message being read into the bytes of the next message (C05/V5)"}),
     ],
@@ -110,6 +113,8 @@ XLIST = {
         ("c04.p4", {"P4": "L9"}, {"L9": "an acknowledgement the caller waits for (holding the lock) is always written (C04/P4)"}),
     ],
     "C11": [
+        ("c17.e5e6", {"E5": "T11"}, {"T11": "a kick of a disabled ring does not end the worker: retained kicks are delivered after re-enable (C17/E5)"}),
+        ("c12", {"K3": ("T12", has("wait-interrupted"))}, {"T12": "an interrupted epoll wait is retried, so started and enabled rings keep being polled (C12/K3)"}),
         ("c02.d1d2", {"D2": ("T8", has("GET_VRING_BASE", "SET_VRING_ENABLE", "SET_VRING_KICK", "SET_VRING_CALL", "SET_VRING_ERR"))}, {"T8": "ring requests act on the ring named by the message (index from the index field) (C02/D2)"}),
         ("c07", {"G2": ("T9", has("RESET_DEVICE", "SET_VRING_ENABLE"))}, {"T9": "the reset / enable transitions are tied to their own protocol feature only (C07/G2)"}),
         ("c17", {"E3": ("T10", has("slice"))}, {"T10": "each worker dispatches on the rings of its own mask, so the registered id names the ring that was started (C17/E3)"}),
@@ -121,6 +126,8 @@ XLIST = {
         ("c05.v1", {"V1": ("X3", has("site:SET_MEM_TABLE"))}, {"X3": "the region validator is applied to every region of a memory table before it is accepted (C05/V1)"}),
     ],
     "C12": [
+        ("c17.e12e13", {"E12": "K19", "E13": "K20"}, {"K19": "with the default mapping every queue below 32 has a worker, so its kicks are registered (C17/E12)",
+                                                      "K20": "ring objects exist for exactly the queue indices 0 .. num_queues (C17/E13)"}),
         ("c05.v2", {"V2": ("K16", has("VringEpollHandler", "VringT<", "VringState"))}, {"K16": "no panic in the worker loop or the ring accessors: a dead worker handles no kick (C05/V2)"}),
         ("c14.q12", {"Q12": "K17"}, {"K17": "the ring state's setters store / forward the caller's value: a disable really disables (C14/Q12)"}),
         ("c02.d1d2", {"D2": ("K15", has("GET_VRING_BASE", "SET_VRING_ENABLE", "SET_VRING_KICK"))}, {"K15": "a stop / enable / kick request acts on the ring it names (C02/D2)"}),
@@ -132,6 +139,8 @@ XLIST = {
         ("c17", {"E3": ("K9", has("id-source", "first-thread", "one-worker", "slice", "thread-order"))}, {"K9": "the registered event id and worker are the ring's own, so its wake-ups reach its handler (C17/E3)"}),
     ],
     "C13": [
+        ("c01.w1", {"W1": ("M15", has("MemoryRegion", "VhostUserMemory"))}, {"M15": "memory-region messages have the specified layout: guest address, size, user address and offset are read from their own bytes (C01/W1)"}),
+        ("c02.d4", {"D4": ("M14", has("set_mem_table"))}, {"M14": "the frontend sends exactly the regions it was given or fails: an invalid region is not silently left out (C02/D4)"}),
         ("c02.d1d2", {"D2": ("M12", has("SET_MEM_TABLE", "ADD_MEM_REG", "REM_MEM_REG"))}, {"M12": "the memory-table handlers receive the regions and descriptors of the message (C02/D2)"}),
         ("c09", {"O1": ("M13", has("recv:order", "recv:count"))}, {"M13": "received descriptors keep their wire order, so region i is backed by file i (C09/O1)"}),
         ("c05.v1", {"V1": ("M10", has("site:SET_MEM_TABLE"))}, {"M10": "a memory table is accepted only with exactly one descriptor per region (C05/V1)"}),
@@ -155,6 +164,9 @@ XLIST = {
         ("c03.r1r2", {"R1": ("B6", has("SET_LOG_BASE"))}, {"B6": "SET_LOG_BASE is confirmed to the frontend only after the handler accepted the log (C03/R1)"}),
     ],
     "C18": [
+        ("c08.loops", {"S1": "B15"}, {"B15": "a request is written completely: a transient send failure is retried, not turned into a dropped request (C08/S1)"}),
+        ("c08.s5", {"S5": ("B16", has("part-receiver"))}, {"B16": "the acknowledgement is read by a looping receiver (C08/S5)"}),
+        ("c08.s3", {"S3": "B17"}, {"B17": "an acknowledgement is accepted only complete and valid (C08/S3)"}),
         ("c02.d3", {"D3": ("B14", has("FrontendReqHandler"))}, {"B14": "the Mutex adapter of the frontend-side handler forwards every request to the same-named method (C02/D3)"}),
         ("c08.s4", {"S4": "B9"}, {"B9": "an interrupted wait for the acknowledgement is retried (EINTR is the retry class) (C08/S4)"}),
         ("c14", {"Q4": ("B7", has("proto-store"))}, {"B7": "the daemon records the acknowledged protocol features unmasked, so the proxy inherits REPLY_ACK (C14/Q4)"}),
@@ -174,7 +186,7 @@ XLIST = {
     "C17": [
         ("c12", {"K3": ("E9", has("wait-interrupted"))}, {"E9": "an interrupted epoll wait is retried: a signal does not end the worker that owns the queues (C12/K3)"}),
         ("c05.v2", {"V2": ("E10", has("VringEpollHandler"))}, {"E10": "the dispatcher's ring lookup is bounded by the event id it was given, unnarrowed (C05/V2)"}),
-        ("c11", {"T1": ("E11", has("set_features"))}, {"E11": "rings of a frontend without PROTOCOL_FEATURES are enabled (and registered) by SET_FEATURES (C11/T1)"}),
+        ("c11", {"T1": "E11"}, {"E11": "the control handlers change exactly the prescribed ring state (started / enabled), so a queue's kick descriptor stays registered with its worker (C11/T1)"}),
         ("c11", {"T3": ("E7", has("always-decides", "add", "delete"))}, {"E7": "the owning worker is the one whose mask has the queue's bit, and its registration is always updated (C11/T3)"}),
         ("c11", {"T2": "E8"}, {"E8": "a stopped ring is unregistered while its descriptor is still known, so no second worker handles its kicks (C11/T2)"}),
         ("c02.d3", {"D3": ("E4", has("VhostUserBackend<", "VringT<"))}, {"E4": "the backend adapters forward handle_event with its arguments unchanged (C02/D3)"}),
